@@ -100,6 +100,14 @@ class Report:
         ev = dict(property_id=self.pid, tier=self.tier, seed=int(self.seed), level=level, coverage=cov,
                   assumptions=self.assumptions, wall_s=round(time.time() - self.t0, 2),
                   violations=len(self.violations))
+        if os.environ.get("VERIF_OPT") == "1":
+            # the optimised pass reports to the run that started it (harness/main.py), it writes no evidence file of its own
+            print("OPT-SUMMARY " + json.dumps(dict(traces=int(self.traces), states=int(self.states),
+                                                   violations=len(self.violations), wall_s=ev["wall_s"],
+                                                   legs=jsonable(self.extra.get("trace_validation", []))
+                                                   + [dict(cfg=r.get("cfg"), runs=r.get("runs")) for r in self.extra.get("replay", [])])),
+                  flush=True)
+            return 0 if not self.violations else 1
         os.makedirs(EVIDENCE, exist_ok=True)
         with open(os.path.join(EVIDENCE, f"{self.pid}.json"), "w") as f:
             json.dump(ev, f, indent=1)
